@@ -5,6 +5,8 @@ package main
 import (
 	"fmt"
 	"go/constant"
+	"go/types"
+	"math/big"
 	"strings"
 
 	"golang.org/x/tools/go/ssa"
@@ -144,28 +146,24 @@ func runC18(cx *Ctx, r *Report) {
 			r.check(okLoop, "dequeue-every-iteration", "BeginBlock", deq[0].ev.Pos(cx), "every path through the begin blocker's loop body deletes the queue entry being handled", "a path through the begin blocker's loop body does not dequeue the handled request: it would be handled again or never")
 			// the loop drains the whole bucket: its only exit is the iterator running out. The
 			// bucket of a height is looked at in one block only, so whatever a break or an
-			// early return leaves behind is never served.
+			// early return leaves behind is never served. The loop holding the dequeues must be
+			// the loop that walks the iterator, or the range over a snapshot of the bucket
+			// taken by a read-only collector that appends every entry.
 			if top != nil {
 				s1 := liftTo(deq[0].ev, top)
 				h := loopHeaderOf(s1.Block())
+				loopFr, lh, consumer, ch, shapeOK := cx.iterationConsumer(iter[0].ev.Fr)
 				early := ""
-				if h != nil {
-					inL := func(b *ssa.BasicBlock) bool { return b == h || (h.Dominates(b) && blockReaches(b, h)) }
-					for _, b := range top.Fn.Blocks {
-						if !inL(b) || b == h {
-							continue
-						}
-						for _, sc := range b.Succs {
-							if !inL(sc) {
-								early = cx.P.Pos(condPos(nil, b))
-							}
-						}
-						if _, isRet := b.Instrs[len(b.Instrs)-1].(*ssa.Return); isRet {
-							early = cx.P.Pos(condPos(nil, b))
-						}
+				okTie := shapeOK && h != nil && consumer == top && ch == h
+				if !okTie {
+					early = "the loop holding the dequeues is not the loop over the queue iterator or its snapshot"
+				} else {
+					early, _ = cx.loopEarlyExit(loopFr.Fn, lh)
+					if consumer != loopFr && early == "" {
+						early, _ = cx.loopEarlyExit(consumer.Fn, ch)
 					}
 				}
-				r.check(h != nil && early == "", "drain-complete", "BeginBlock", deq[0].ev.Pos(cx), "the loop over the due requests is left only when the iterator is exhausted", "the begin blocker leaves the loop over the due requests early ("+early+"): the remaining requests of that height are never looked at again (only the previous height's bucket is scanned) - they get no result and stay queued forever")
+				r.check(okTie && early == "", "drain-complete", "BeginBlock", deq[0].ev.Pos(cx), "the loop over the due requests is left only when the iterator is exhausted", "the begin blocker leaves the loop over the due requests early ("+early+"): the remaining requests of that height are never looked at again (only the previous height's bucket is scanned) - they get no result and stay queued forever")
 			}
 			k0 := deq[0].ev.Args[0].LooseString()
 			okKey := strings.Contains(k0, "(sdk.Context.BlockHeight() - 1)") && strings.Contains(k0, "random/types.GenerateRequestID(") && deq[1].ev.Args[0].LooseString() == k0 &&
@@ -241,6 +239,35 @@ func runC18(cx *Ctx, r *Report) {
 				_ = req
 			}
 		}
+		// the due height must not wrap: msg.BlockInterval is an unsigned 64-bit value that
+		// is converted to a signed height and added to the current one. Unguarded, an
+		// interval ≥ 2^63 − h queues the request under a height that is already past (or
+		// negative): it is never served and never leaves the queue.
+		if len(enq) == 1 {
+			conv := ""
+			for f := enq[0].ev.Fr; f != nil && conv == ""; f = f.Parent {
+				for _, b := range f.Fn.Blocks {
+					for _, ins := range b.Instrs {
+						cv, isC := ins.(*ssa.Convert)
+						if !isC {
+							continue
+						}
+						from, ok1 := cv.X.Type().Underlying().(*types.Basic)
+						to, ok2 := cv.Type().Underlying().(*types.Basic)
+						if ok1 && ok2 && from.Info()&types.IsUnsigned != 0 && to.Info()&types.IsInteger != 0 && to.Info()&types.IsUnsigned == 0 {
+							if _, isP := cv.X.(*ssa.Parameter); isP {
+								conv = cx.P.Pos(cv.Pos())
+							}
+						}
+					}
+				}
+			}
+			guard := ""
+			if conv != "" {
+				guard = noWrapFact(enq[0].w.FactsAt(enq[0].ev.Fr, enq[0].ev.Site), "(sdk.Context.BlockHeight() + msg.BlockInterval)", "sdk.Context.BlockHeight()", "msg.BlockInterval")
+			}
+			r.check(conv == "" || guard != "", "due-height-no-wrap", "RequestRandom", enq[0].ev.Pos(cx), "the unsigned interval is converted to a signed height under the guard "+guard, "the unsigned msg.BlockInterval is converted to a signed height at "+conv+" and added to the current height with no bound or wrap-around check: an interval ≥ 2^63 − h queues the request under a past or negative height, where no begin blocker ever looks - it is never fulfilled and never leaves the queue")
+		}
 		r.check(ok, "due-height", "RequestRandom", pos, "a request made at height h with interval n is queued, on every successful path, under exactly h + n (the begin blocker of h+n+1 serves the queue of the previous height)", fmt.Sprintf("the request is queued under %q (expected exactly current height + msg.BlockInterval, on every successful path; %d enqueue sites)", got, len(enq)))
 	}
 	r.requireCount("due-height", 1)
@@ -277,6 +304,9 @@ func (cx *Ctx) c18Provenance(r *Report, set hev, where string, oracle bool) {
 		}
 		if t.Op == "call" && (strings.HasPrefix(t.Name, "out:codec.") || strings.HasPrefix(t.Name, "random/keeper.Keeper.GetOracleRandRequest")) {
 			return // the stored request record itself: its fields (consumer) are the requester's data
+		}
+		if t.Op == "call" && cx.c18RequestReader(t) {
+			return // a read-only getter of the request stores: the stored request record again
 		}
 		if t.Op == "call" {
 			n := t.Name
@@ -371,4 +401,95 @@ func bigConst(v ssa.Value) string {
 		return k.Value.ExactString()
 	}
 	return ""
+}
+
+
+// c18RequestReader: the call is to a function that does nothing but read the queue /
+// pending-oracle-request prefixes of the random store (a getter or snapshot of the
+// stored requests).
+func (cx *Ctx) c18RequestReader(t *Term) bool {
+	c := t.src
+	if c == nil {
+		return false
+	}
+	f := c.Common().StaticCallee()
+	if f == nil || f.Blocks == nil || moduleOf(funcPkgPath(f)) != "random" {
+		return false
+	}
+	n := 0
+	for _, g := range cx.Reachable([]*ssa.Function{f}, nil).Order {
+		if g.Blocks == nil {
+			continue
+		}
+		for _, p := range cx.primsOf(g) {
+			switch p.Kind {
+			case "store.get", "store.has", "store.iter", "store.riter":
+				for _, px := range p.Prefix {
+					if px != rndQueue && px != rndOracle {
+						return false
+					}
+				}
+				n++
+			default:
+				return false
+			}
+		}
+	}
+	return n > 0
+}
+
+
+// noWrapFact: among the facts one that excludes wrap-around of sum = base + n:
+// ¬(sum < base) (in any of its spellings), or a constant upper bound n ≤ K, K ≤ 2^62.
+func noWrapFact(facts []FactT, sum, base, n string) string {
+	for _, ft := range facts {
+		t := ft.Text
+		if isOutcomeFact(t) || !strings.HasPrefix(t, "(") || !strings.HasSuffix(t, ")") {
+			continue
+		}
+		t = t[1 : len(t)-1]
+		for _, op := range []string{" < ", " <= ", " > ", " >= "} {
+			parts := splitTopLevelOp(t, op)
+			if parts == nil {
+				continue
+			}
+			l, rr := parts[0], parts[1]
+			o := strings.TrimSpace(op)
+			if !ft.Holds { // negate
+				o = map[string]string{"<": ">=", "<=": ">", ">": "<=", ">=": "<"}[o]
+			}
+			// normalise to l o r with o in {<=, <} by mirroring
+			if o == ">" || o == ">=" {
+				l, rr = rr, l
+				o = map[string]string{">": "<", ">=": "<="}[o]
+			}
+			// now: l < r or l <= r
+			if l == base && rr == sum && o == "<=" {
+				return ft.String()
+			}
+			if l == n {
+				if k, ok := new(big.Int).SetString(rr, 10); ok && k.Sign() >= 0 && k.BitLen() <= 62 {
+					return ft.String()
+				}
+			}
+		}
+	}
+	return ""
+}
+
+// splitTopLevelOp splits "a op b" at the one depth-0 occurrence of op.
+func splitTopLevelOp(s, op string) []string {
+	depth := 0
+	for i := 0; i+len(op) <= len(s); i++ {
+		switch s[i] {
+		case '(', '[', '{':
+			depth++
+		case ')', ']', '}':
+			depth--
+		}
+		if depth == 0 && strings.HasPrefix(s[i:], op) {
+			return []string{s[:i], s[i+len(op):]}
+		}
+	}
+	return nil
 }
